@@ -9,6 +9,7 @@ Each generator returns dict(build(env, statics)->observable, coq, n_static, ty,
 eqb, enc, spec, dynamic, bounds, gaps, periodic)."""
 import datetime as _dt
 
+import k2
 import k2m
 from k2 import UserError
 from lib import gz
@@ -76,7 +77,7 @@ def make_mapper(env, ent):
         calls[0] += 1
         e = ent[j] if j < len(ent) else ("ok", None)
         if e[0] == "raise":
-            raise UserError(e[1])
+            raise k2.make_error(e[1])
         return env.new_source().observable
     return mapper
 
@@ -323,7 +324,7 @@ def gen_timeline(rng, nsrc, bounds=(), gaps=(), from_end=(), maxlen=5, p_err=0.2
         for ti in times:
             evs.append((ti, k, ("N", rng.choice(VALUES))))
         if r < p_err:
-            evs.append((tt, k, ("E", UserError(rng.choice([11, 12])))))
+            evs.append((tt, k, ("E", k2.make_error(rng.choice([11, 12])))))
         elif r < 1 - p_none:
             evs.append((tt, k, ("C",)))
         if rng.random() < nonconforming:
